@@ -403,6 +403,6 @@ func plans(tier string) []mc.Plan {
 }
 
 func init() {
-	mc.Register(&mc.Check{ID: "C12", Plans: plans, Budget: map[string]int{"quick": 150, "thorough": 1800},
+	mc.Register(&mc.Check{ID: "C12", Plans: plans, Budget: map[string]int{"quick": 240, "thorough": 1800},
 		Notes: "C12: a closer (Conn.Close, cancel of ServeOne's context, cancel of Serve's context, listener close) is placed at every point of each workload by the deviation bound; oracle: Close returns, transports closed exactly once (also after a second Close), pending and later calls fail, active stream contexts end, no library goroutine survives, Serve returns only after its handlers did."})
 }
